@@ -351,3 +351,15 @@ Proof.
     destruct (fst sp =? snd sp)%N; [constructor|]. cbn. constructor; [|constructor]. cbn [fst snd].
     cbn [osp_g] in Ht. unfold sp_g, bd in Ht. apply andb_true_iff in Ht. exact Ht.
 Qed.
+
+Lemma parse_document_g s d :
+  utf8_valid_b s = true -> parse_document s = POk d ->
+  tbl_g (bd s) (doc_root d) = true /\ raw_g (bd s) (doc_trailing d) = true.
+Proof.
+  intros V H. unfold parse_document in H. destruct (parse_all document s) as [fin| |] eqn:E; try discriminate.
+  apply parse_all_done_eof in E as (i & E & R). pose proof (document_g s fin i V E) as Hg.
+  destruct (finalize_table fin) as [st'| |] eqn:F; try discriminate. inversion H; subst d. clear H.
+  destruct (finalize_g _ _ _ Hg F) as (Hr & Htr & _ & _). destruct Hg as (_ & _ & Ht & _).
+  cbn [doc_root doc_trailing]. split; [exact Hr|]. rewrite Htr.
+  destruct (st_trailing fin) as [sp|]; [apply raw_with_span_g, Ht|reflexivity].
+Qed.
